@@ -111,6 +111,11 @@ def cases(tier, rng):
         for ch in (b"%", b"Z", b"1"):
             lines += enc_cases(ch * n, ((1, 0),))
         lines += enc_cases(rand_bytes(rng, one(BASIC43), n), ((1, 0),))
+    import gaps
+    lines += gaps.family(rng, tier, ("c39", "c93"))
+    # long runs of the zero-valued symbol '0' between other characters (the check weights must keep their phase)
+    for t in gaps.zero_value_runs("0", "Z") + gaps.zero_value_runs("0", "%", (15, 20, 25, 47)):
+        lines += enc_cases(t.encode(), ((1, 0),))
     # the helper functions on their own (also on text the encoders reject)
     for s in [b"", b"A", b"*", b"a", b"\xc3\xb1", b"AB\xc3\xb4", b"\xff", b"0123456789", b"%%%%%%%%%%%%%%%%%%%%%%%%"] + WEIRD[:6]:
         lines += ["c39ck " + hx(s), "c39prep " + hx(s), "c93ck 20 " + hx(s), "c93ck 15 " + hx(s), "c93prep " + hx(s)]
